@@ -55,6 +55,7 @@ struct LexerCheckpoint<'src> {
     cur_token_start: CharOffset,
     cur_token_line: LineIdx,
     mode_stack_len: usize,
+    errors_len: usize,
     buffer_checkpoint: WorkBufferCheckpoint,
 }
 
@@ -194,6 +195,7 @@ impl Lexer<'_> {
             cur_token_start: self.cur_token_start,
             cur_token_line: self.cur_token_line,
             mode_stack_len: self.mode_stack.len(),
+            errors_len: self.errors.len(),
             buffer_checkpoint: self.buffer.checkpoint(),
         });
     }
@@ -211,6 +213,7 @@ impl Lexer<'_> {
             self.cur_token_start = checkpoint.cur_token_start;
             self.cur_token_line = checkpoint.cur_token_line;
             self.mode_stack.truncate(checkpoint.mode_stack_len);
+            self.errors.truncate(checkpoint.errors_len);
             self.buffer.rollback(checkpoint.buffer_checkpoint);
         } else {
             #[cfg(debug_assertions)]
